@@ -263,10 +263,10 @@ def scale_cells(rot, quick):
     for n in [17, 33, 65, 129, 255]:
         cells.append(("scale:vec:%d" % n,) + vec_program(n))
         cells.append(("scale:interpolation:%d" % n,) + interpolation_program(n))
-    for n in [1, 17, 33, 65, 129, 300]:
+    for n in [1, 17, 33, 65, 129] + ([] if quick else [300]):
         cells.append(("scale:methods:%d" % n,) + methods_program(n))
         cells.append(("scale:classes:%d" % n,) + classes_program(n))
-    for d in LADDER_SMALL + [50, 60]:
+    for d in (sorted(RUNGS | {1, 24, 50, 60}) if quick else LADDER_SMALL + [50, 60]):
         cells.append(("scale:nested_fns:%d" % d,) + nested_fns_program(d))
     for d in LADDER_SMALL:
         for j, ek in enumerate(("throw", "break", "continue", "fall")):
